@@ -1042,20 +1042,18 @@ func c01Excluded(tc l4Case, f *syntax.File, sh *shape) string {
 	// Repaired in /repo by fix: commits (witnesses replayed from corpus/C01-fixed.txt, no exclusion
 	// any more): comment-backslash-newline, single-missing-semicolon, stale-wrotesemi-keyword,
 	// dashhdoc-inner-tab, minify-last-case-op, tabwriter-vt-ff, zsh-minify-short-subscript,
-	// minify-empty-block, command-first-newline.
-	// C01-single-heredoc-test-let (root cause in the parser): a here-document body is not read
-	// when the line carrying the `<<` operator ends in `]]` or a `let` expression; SingleLine
-	// joins statements onto such lines.
-	if o.Single && hasHeredoc(f) && (sh.has("TestClause") || sh.has("LetClause") || sh.has("CaseClause") || sh.has("Subshell") ||
-		sh.has("CmdSubst") || sh.has("ProcSubst")) {
-		// SingleLine defers the body to the next forced newline; when that newline falls inside a
-		// construct the parser reads in a nested lexer state (( ), $( ), <( ), case, [[ ]], let) the
-		// parser treats the here-document as buried and never reads the body (bash does).
-		return "C01-single-heredoc-buried"
-	}
-	// (C01-single-heredoc-in-heredoc — SingleLine prints a command substitution inside a
+	// minify-empty-block, command-first-newline, zsh-special-param-subscript, dashhdoc-vt-ff,
+	// slice-offset-incdec, zsh-subshell-anon-func, and (by the parser fix a243c26: here-document
+	// bodies are read after a buried newline) single-heredoc-buried, heredoc-pipe-test-let.
+	// C01-single-heredoc-in-heredoc: SingleLine prints a command substitution inside a
 	// here-document body on one line, so a here-document inside it is flushed after the outer
-	// delimiter — needs SingleLine ∧ here-document ∧ CmdSubst and lies inside the region above.)
+	// delimiter.
+	if o.Single && sh.any(func(n syntax.Node) bool {
+		r, ok := n.(*syntax.Redirect)
+		return ok && r.Hdoc != nil && hasHeredoc(r.Hdoc)
+	}) {
+		return "C01-single-heredoc-in-heredoc"
+	}
 	// C01-quoted-heredoc-backslash-newline: when the body of a here-document starts more than one
 	// line below the printer's current line (escaped newline after the operator that the printer
 	// drops; other bodies in between when a node is printed on its own), wordParts(quoted=true)
@@ -1107,24 +1105,15 @@ func c01Excluded(tc l4Case, f *syntax.File, sh *shape) string {
 	}) {
 		return "C01-procsubst-word-split"
 	}
-	// C01-heredoc-pipe-test-let (root cause in the parser, see C01-single-heredoc-buried): a
-	// pending here-document keeps `| [[ … ]]` / `&& let …` on the operator's line, and the parser
-	// does not read a body when that line ends in `]]` or a let expression.
-	if sh.any(func(n syntax.Node) bool {
-		b, ok := n.(*syntax.BinaryCmd)
-		return ok && hasHeredoc(b.X) && (containsType(b.Y, "TestClause") || containsType(b.Y, "LetClause"))
-	}) {
-		return "C01-heredoc-pipe-test-let"
-	}
-	// C01-binnext-heredoc-nested: the BinaryNextLine face of the buried here-document: with a body
-	// pending, BinaryNextLine keeps the right operand on the operator's line, and the first newline
-	// is then inside the operand's ( ), $( ), <( ), case, [[ ]] or let.
+	// C01-binnext-heredoc-nested: with a body pending, BinaryNextLine keeps the right operand on the
+	// operator's line, and the first newline — where the printer writes the body — is then inside
+	// the operand's ( ), $( ), <( ) or case.
 	if o.BinNext && sh.any(func(n syntax.Node) bool {
 		b, ok := n.(*syntax.BinaryCmd)
 		if !ok || !hasHeredoc(b.X) {
 			return false
 		}
-		for _, t := range []string{"Subshell", "CmdSubst", "ProcSubst", "CaseClause", "TestClause", "LetClause"} {
+		for _, t := range []string{"Subshell", "CmdSubst", "ProcSubst", "CaseClause"} {
 			if containsType(b.Y, t) {
 				return true
 			}
@@ -1295,46 +1284,6 @@ func c01Excluded(tc l4Case, f *syntax.File, sh *shape) string {
 	}) {
 		return "C01-zsh-paren-arg-after-redirect"
 	}
-	// C01-zsh-special-param-subscript (root cause in the parser): whether `$?[ab]` has a subscript
-	// depends on the literal read before it (stale p.val), so the same bytes parse differently in
-	// another context (the word printed on its own, another preceding word).
-	if tc.Lang == syntax.LangZsh && sh.any(func(n syntax.Node) bool {
-		var parts []syntax.WordPart
-		switch x := n.(type) {
-		case *syntax.Word:
-			parts = x.Parts
-		case *syntax.DblQuoted:
-			parts = x.Parts
-		}
-		for i, p := range parts {
-			pe, ok := p.(*syntax.ParamExp)
-			if !ok || !pe.Short || pe.Index != nil || pe.Param == nil || len(pe.Param.Value) != 1 || i+1 >= len(parts) {
-				continue
-			}
-			if c := pe.Param.Value[0]; c >= '0' && c <= '9' || c == '_' || c >= 'a' && c <= 'z' || c >= 'A' && c <= 'Z' {
-				continue
-			}
-			if l, ok := parts[i+1].(*syntax.Lit); ok && strings.HasPrefix(l.Value, "[") {
-				return true
-			}
-		}
-		return false
-	}) {
-		return "C01-zsh-special-param-subscript"
-	}
-	// C01-dashhdoc-vt-ff: with tab indentation (Indent 0, no Minify) the body of a <<- here-document
-	// goes through extraIndenter, which escapes tabs for text/tabwriter but not vertical tabs and
-	// form feeds; the tabwriter turns them into a blank / a line break.
-	if o.Indent == 0 && !o.Minify && strings.ContainsAny(tc.Src, "\v\f") && sh.any(func(n syntax.Node) bool {
-		r, ok := n.(*syntax.Redirect)
-		if !ok || r.Op != syntax.DashHdoc || r.Hdoc == nil || len(r.Hdoc.Parts) == 0 {
-			return false
-		}
-		a, b := int(r.Hdoc.Pos().Offset()), int(r.Hdoc.End().Offset())
-		return a >= 0 && b <= len(tc.Src) && a <= b && strings.ContainsAny(tc.Src[a:b], "\v\f")
-	}) {
-		return "C01-dashhdoc-vt-ff"
-	}
 	// C01-paramexp-word-escaped-newline: a word inside ${a:-…} / ${a/x/…} that starts on a later
 	// line than the operator (escaped newline in the source) is printed after backslash-newline
 	// plus indentation (and a blank), and inside ${ } those bytes belong to the word.
@@ -1354,31 +1303,6 @@ func c01Excluded(tc l4Case, f *syntax.File, sh *shape) string {
 		return false
 	}) {
 		return "C01-paramexp-word-escaped-newline"
-	}
-	// C01-slice-offset-incdec: the offset of ${a: ++x} / ${a: --x} is printed without the blank:
-	// ${a:++x} / ${a:--x} are ${a:+word} / ${a:-word} (the printer guards + and - only).
-	if sh.any(func(n syntax.Node) bool {
-		pe, ok := n.(*syntax.ParamExp)
-		if !ok || pe.Slice == nil || pe.Slice.Offset == nil {
-			return false
-		}
-		x := pe.Slice.Offset
-		for {
-			switch y := x.(type) {
-			case *syntax.BinaryArithm:
-				x = y.X
-				continue
-			case *syntax.UnaryArithm:
-				if y.Post {
-					x = y.X
-					continue
-				}
-				return y.Op == syntax.Inc || y.Op == syntax.Dec
-			}
-			return false
-		}
-	}) {
-		return "C01-slice-offset-incdec"
 	}
 	// C01-let-escaped-newline: an escaped newline inside one expression of `let` is printed as
 	// blank + backslash + newline, and the blank ends the expression (`let a=1+ \`).
@@ -1415,32 +1339,6 @@ func c01Excluded(tc l4Case, f *syntax.File, sh *shape) string {
 		return bare(pe.Slice.Offset)
 	}) {
 		return "C01-zsh-simplify-slice-modifier"
-	}
-	// C01-zsh-subshell-anon-func: a zsh anonymous function `() { … }` first in a subshell or command
-	// substitution is glued to the parenthesis: `(() {` / `$(() {` start an arithmetic command.
-	if tc.Lang == syntax.LangZsh && sh.any(func(n syntax.Node) bool {
-		var stmts []*syntax.Stmt
-		switch x := n.(type) {
-		case *syntax.Subshell:
-			stmts = x.Stmts
-		case *syntax.CmdSubst:
-			stmts = x.Stmts
-		}
-		if len(stmts) == 0 {
-			return false
-		}
-		cmd := stmts[0].Cmd
-		for {
-			b, ok := cmd.(*syntax.BinaryCmd)
-			if !ok {
-				break
-			}
-			cmd = b.X.Cmd
-		}
-		fd, ok := cmd.(*syntax.FuncDecl)
-		return ok && !fd.RsrvWord && fd.Name == nil && len(fd.Names) == 0 && !stmts[0].Negated
-	}) {
-		return "C01-zsh-subshell-anon-func"
 	}
 	// C01-escaped-cr-before-newline: a word ending in backslash + carriage return printed at the
 	// end of a line makes `\` CR LF, which the lexer reads as an escaped newline.
